@@ -138,6 +138,8 @@ impl Position {
     #[verifier::external_body] pub fn update_size(&mut self, sz: &Size) { unimplemented!() }
     #[verifier::external_body] pub fn update_shape(&mut self, shape: &str) { unimplemented!() }
     #[verifier::external_body] pub fn set_position_attrs(&self, element: &mut SvgElement) { unimplemented!() }
+    #[verifier::external_body] pub fn has_x_position(&self) -> bool { unimplemented!() }
+    #[verifier::external_body] pub fn has_y_position(&self) -> bool { unimplemented!() }
 }
 impl BoundingBox { #[verifier::external_body] pub fn size(&self) -> Size { unimplemented!() } }
 /// stands for the block of ReuseElement that rebuilds the event list of a non-empty instance
